@@ -1774,6 +1774,196 @@ func (h *c07Hist) runScan(variant int) {
 	}
 }
 
+// forceRotate advances the clock by more than the rotation interval and runs
+// the rotation check.  It reports whether the current file became the rotated
+// one.
+func (h *c07Hist) forceRotate() (rotated bool) {
+	d := h.ivl + time.Duration(1+h.rng.Intn(600))*time.Second
+	time.Sleep(d)
+	h.opf("advance %s, rotation check at %s", d, time.Now().Format(time.RFC3339Nano))
+	h.rec.Events["rotation_checks"]++
+	before := h.rec.Events["rotations_performed"]
+	if !h.guard("checkAndRotate", func() { h.inst.l.checkAndRotate(context.Background()) }) {
+		return false
+	}
+	synctest.Wait()
+	h.reconcile("rotate", c07MayRotate, true)
+
+	return !h.dead && h.rec.Events["rotations_performed"] > before
+}
+
+// opInvariance is the location-invariance oracle.  It needs no reading of
+// what a search term or a status means: a fixed set of requests is evaluated,
+// then the same entries are moved (memory to file by a flush, file to rotated
+// file by a rotation that ages nothing out, or through a restart) without any
+// entry being added or removed, and every request must return the same
+// entries in the same order as before.
+func (h *c07Hist) opInvariance() {
+	if h.dead || !h.enabled && len(h.live) == 0 {
+		return
+	}
+	if _, _, m := h.counts(); m == 0 && h.memSize > 1 && h.enabled {
+		h.opAdd(1 + h.rng.Intn(int(h.memSize)-1))
+	}
+	if h.dead || len(h.live) == 0 {
+		return
+	}
+	type invReq struct {
+		q      url.Values
+		kind   string
+		before []int64
+		tags   []string
+	}
+	var reqs []*invReq
+	cursor := func() string {
+		e := h.live[h.rng.Intn(len(h.live))]
+
+		return e.T.Format(time.RFC3339Nano)
+	}
+	add := func(kind string, q url.Values, older bool) {
+		q.Set("limit", strconv.Itoa(c07BigLimit))
+		if older {
+			q.Set("older_than", cursor())
+			kind += ":older-than"
+		}
+		reqs = append(reqs, &invReq{q: q, kind: kind})
+	}
+	for _, st := range c07Statuses {
+		add("status-"+st, url.Values{"response_status": {st}}, false)
+	}
+	for i := 0; i < 4; i++ {
+		st := c07Statuses[h.rng.Intn(len(c07Statuses))]
+		add("status-"+st, url.Values{"response_status": {st}}, true)
+	}
+	for i := 0; i < 8; i++ {
+		t := c07RandTerm(h.rng, h.world, h.live)
+		add(t.Kind, url.Values{"search": {t.Raw}}, i%2 == 1)
+	}
+	for i := 0; i < 2; i++ {
+		t := c07RandTerm(h.rng, h.world, h.live)
+		st := c07Statuses[h.rng.Intn(len(c07Statuses))]
+		add(t.Kind+":status-"+st, url.Values{"search": {t.Raw}, "response_status": {st}}, i == 1)
+	}
+	add("listing", url.Values{}, false)
+	add("listing", url.Values{}, true)
+
+	opt := map[int64]bool{}
+	for _, e := range h.live {
+		if h.optional(e) {
+			opt[e.Nano] = true
+		}
+	}
+	eval := func(r *invReq) (ts []int64, ok bool) {
+		p := h.get("location-invariance:"+r.kind, r.q)
+		if p == nil {
+			return nil, false
+		}
+		for _, t := range p.Times {
+			if !opt[t] {
+				ts = append(ts, t)
+			}
+		}
+
+		return ts, true
+	}
+	nr, nf, nm := h.counts()
+	h.opf("location invariance: %d requests evaluated with rotated=%d file=%d memory=%d", len(reqs), nr, nf, nm)
+	for _, r := range reqs {
+		ts, ok := eval(r)
+		if !ok {
+			return
+		}
+		r.before, r.tags = ts, h.tags(ts)
+	}
+	compare := func(move string) {
+		for _, r := range reqs {
+			if h.dead {
+				return
+			}
+			ts, ok := eval(r)
+			if !ok {
+				return
+			}
+			h.rec.Events["location_invariance_comparisons_after_"+move]++
+			if len(r.before) > 0 {
+				h.rec.Events["location_invariance_comparisons_with_results"]++
+			}
+			if c07EqualTimes(ts, r.before) {
+				continue
+			}
+			in := func(list []int64) map[int64]bool {
+				m := map[int64]bool{}
+				for _, t := range list {
+					m[t] = true
+				}
+
+				return m
+			}
+			was, is := in(r.before), in(ts)
+			var lost, gained []string
+			for _, t := range r.before {
+				if e := h.byTime[t]; !is[t] && e != nil {
+					lost = append(lost, e.String()+" now in "+h.locOfTime(t))
+				} else if !is[t] {
+					lost = append(lost, h.tag(t))
+				}
+			}
+			for _, t := range ts {
+				if !was[t] {
+					if e := h.byTime[t]; e != nil {
+						gained = append(gained, e.String()+" now in "+h.locOfTime(t))
+					} else {
+						gained = append(gained, h.tag(t))
+					}
+				}
+			}
+			what := "order"
+			switch {
+			case len(lost) > 0:
+				what = "entries-lost"
+			case len(gained) > 0:
+				what = "entries-gained"
+			}
+			if len(lost) > 6 {
+				lost = lost[:6]
+			}
+			if len(gained) > 6 {
+				gained = gained[:6]
+			}
+			h.violate("location-invariance:"+r.kind+":"+what+":after-"+move,
+				"the same request returns other entries after the entries moved ("+move+"), although none was added or removed",
+				map[string]any{"request": r.q.Encode(), "returned_before_the_move": r.tags, "returned_after_the_move": h.tags(ts),
+					"no_longer_returned": lost, "newly_returned": gained})
+			h.dead = true
+
+			return
+		}
+		// The next move is compared with this state's results as well.
+	}
+	if _, _, m := h.counts(); m > 0 {
+		h.rec.Events["location_invariance_entries_moved_memory_to_file"] += m
+		h.opFlush()
+		compare("flush")
+	}
+	if h.dead {
+		return
+	}
+	if h.nF > 0 && h.nR == 0 {
+		n := h.nF
+		if h.forceRotate() {
+			h.rec.Events["location_invariance_entries_moved_file_to_rotated"] += n
+			compare("rotate")
+		}
+	}
+	if h.dead {
+		return
+	}
+	if h.rng.Intn(2) == 0 {
+		h.opRestart()
+		compare("restart")
+	}
+}
+
 // run executes one history.
 func (h *c07Hist) run(target int, large bool) {
 	defer os.RemoveAll(h.dir)
@@ -1788,6 +1978,11 @@ func (h *c07Hist) run(target int, large bool) {
 	}
 	for h.serial < target && !h.dead {
 		switch k := h.rng.Intn(100); {
+		case k < 3:
+			if large {
+				continue
+			}
+			h.opInvariance()
 		case k < 52:
 			n := 1 + h.rng.Intn(int(h.memSize)*2+3)
 			if large {
@@ -1830,6 +2025,10 @@ func (h *c07Hist) run(target int, large bool) {
 		h.setConfig(true, false, nil, false)
 		h.verify(1, "final, ignore list and anonymisation off")
 	}
+	if h.dead {
+		return
+	}
+	h.opInvariance()
 	if h.dead {
 		return
 	}
@@ -2130,6 +2329,8 @@ func TestVerifC07(t *testing.T) {
 		{"flushes_observed", 20}, {"rotations_performed", 10}, {"restarts", 10}, {"searches_with_matches", 100},
 		{"entry_json_identical_after_move_memory_to_file", 50},
 		{"scan_limit_search_walks_with_an_empty_page_that_carries_a_cursor", 4}, {"scan_limit_listing_walks", 4},
+		{"location_invariance_comparisons_after_flush", 500}, {"location_invariance_comparisons_after_rotate", 200},
+		{"location_invariance_entries_moved_memory_to_file", 100},
 	} {
 		if got := rep.EventCount(need.event); got < need.min {
 			rep.Inconcl(fmt.Sprintf("only %d %s events (need %d)", got, need.event, need.min))
